@@ -290,7 +290,12 @@ class C12(Check):
             self._cmp("evalf(e,%d,Complex)" % bits, complex(engine.hexf(d[1]), engine.hexf(d[2])), ref, fac, case, dump)
             judged.append("evalfc")
         r = res[3]
-        if is_exc(r):
+        if any(h in heads for h in ("Sign", "Floor", "Ceiling", "Truncate")):
+            # not node types eval_double / eval_complex_double accept (the statement quantifies over those); the
+            # symbolic domain turns them into exact integers and re-runs exact constructor logic (C08's domain,
+            # e.g. acot(sign(cos(2))) -> acot(-1) -> 3*pi/4)
+            self.skip("evalf_symbolic:node_type_outside_eval_double")
+        elif is_exc(r):
             self._skipexc(r, "evalf_symbolic")
         else:
             d = B(r)
